@@ -332,6 +332,12 @@ func Eq(a, b *Term) *Term {
 	if (privateObjLeaves[a] && b.Op != "ite") || (privateObjLeaves[b] && a.Op != "ite") {
 		return False
 	}
+	if (nonZeroLeaves[a] && b.IntV != nil && b.IntV.Sign() == 0) || (nonZeroLeaves[b] && a.IntV != nil && a.IntV.Sign() == 0) {
+		return False
+	}
+	if distinctPairs[[2]*Term{a, b}] || distinctPairs[[2]*Term{b, a}] {
+		return False // a driver set this pair up as two different objects (and assumed it)
+	}
 	// fresh object identities are pairwise distinct and differ from literal ids
 	if objLeaves[a] && (objLeaves[b] || b.IntV != nil || preObjLeaves[b]) || objLeaves[b] && (a.IntV != nil || preObjLeaves[a]) {
 		return False
@@ -350,6 +356,8 @@ var strLits = map[*Term]bool{}
 var objLeaves = map[*Term]bool{}
 var preObjLeaves = map[*Term]bool{}
 var privateObjLeaves = map[*Term]bool{}
+var nonZeroLeaves = map[*Term]bool{} // object ids asserted > 0 at creation
+var distinctPairs = map[[2]*Term]bool{}
 
 func Distinct(a, b *Term) *Term { return Not(Eq(a, b)) }
 
